@@ -593,6 +593,29 @@ Proof.
   vm_compute. auto.
 Qed.
 
+(* ... and no repair can keep both pinned behaviours: ANY relation that orders
+   two indexed tasks with different indexes by index (the behaviour on uniform
+   names) and a mixed pair by (creation time, UID) (what the upstream unit test
+   TestCompareTask expects, cases 3-6) fails to be a strict weak order *)
+Definition mixed_pair (l r : item) : Prop :=
+  (i_pidx l = None /\ i_pidx r <> None) \/ (i_pidx l <> None /\ i_pidx r = None).
+
+Theorem compare_task_no_swo_extension : forall lt : item -> item -> bool,
+  (forall l r x y, i_pidx l = Some x -> i_pidx r = Some y -> x <> y -> lt l r = (x <? y)) ->
+  (forall l r, mixed_pair l r -> lt l r = by_time_uid l r) ->
+  ~ swo_on (fun _ => True) lt.
+Proof.
+  intros lt Hidx Hmix Hswo.
+  set (a := mkItem 0 1 1 (Some 1)). set (b := mkItem 1 2 2 None). set (c := mkItem 2 3 3 (Some 0)).
+  assert (Hab : lt a b = true).
+  { rewrite Hmix; [reflexivity|]. right. split; simpl; congruence. }
+  assert (Hbc : lt b c = true).
+  { rewrite Hmix; [reflexivity|]. left. split; simpl; congruence. }
+  assert (Hac : lt a c = false).
+  { rewrite (Hidx a c 1 0); auto. lia. }
+  pose proof (swo_trans _ lt Hswo a b c I I I Hab Hbc) as H. congruence.
+Qed.
+
 (* --- comparators of the shipped plugins are valid everywhere --- *)
 Definition everywhere {T} (_ : T) : Prop := True.
 
